@@ -930,7 +930,10 @@ def spawning_handlers(sc: dict) -> dict[str, dict]:
 def cfg_of(sc: dict, h: dict) -> dict:
     """backoff/timeout/polling in ticks as the stopping logic reads them (timers: None/None)."""
     o = h.get("opts", {})
-    default_poll = float(sc.get("settings", {}).get("background.cancellation_polling", 60))
+    # the default is read from the code under test (a changed default is no violation and no tie break)
+    import kopf
+    code_default = kopf.OperatorSettings().background.cancellation_polling
+    default_poll = float(sc.get("settings", {}).get("background.cancellation_polling", code_default))
     if h["kind"] == "timer":
         return {"backoff": None, "timeout": None, "polling": _ticks(default_poll)}
     return {"backoff": _ticks(o.get("cancellation_backoff")), "timeout": _ticks(o.get("cancellation_timeout")),
